@@ -226,6 +226,38 @@ def arm_of(regs, bb):
     return "|".join(hit) if hit else "-"
 
 
+BYTEWISE = ("core::str::<impl str>::len", "alloc::string::String::len", "core::str::<impl str>::as_bytes",
+            "core::str::<impl str>::bytes", "core::str::<impl str>::get", "core::str::<impl str>::split_at",
+            "core::str::<impl str>::char_indices", "core::str::<impl str>::is_char_boundary", "core::str::<impl str>::is_ascii",
+            "core::str::<impl str>::get_unchecked")
+R9 = "C09.S9.subscript-of-a-text-counts-characters"
+
+
+def check_text_arms(ctx, prog, f, sc, text_reg, rsb, rule, inst, tag):
+    """the arms for text never measure or cut the text in bytes, and count its length in characters"""
+    text_fns = [(f, text_reg)]
+    for g in sc.fns[1:]:
+        for bb, i, s in f.all_stmts():
+            rv = s.get("rv")
+            if rv and rv["k"] == "agg" and rv.get("closure") and bb in text_reg and g.path.endswith(rv["closure"].rsplit("::", 1)[-1]):
+                text_fns.append((g, set(g.reachable)))
+    nbad = 0
+    for g, reg in text_fns:
+        for c in g.calls():
+            if c.bb in reg and (c.name in BYTEWISE or c.name.endswith("Index<I> for str>::index")):
+                # for ASCII text bytes and characters coincide: a byte-wise fast path under `is_ascii()` is fine
+                if c.name.endswith("::is_ascii"):
+                    continue
+                if any(gf[0] == "call" and gf[2] is True and gf[1].endswith("::is_ascii") for gf in flow.guard_facts(prog, g, c.bb)):
+                    continue
+                nbad += 1
+                ctx.ob(rule, "%s|%s%s" % (short(g.path), short(c.name), tag), False,
+                       "the text arm measures or cuts the text in bytes (%s): Python counts characters" % c.name, g.where(c.bb))
+    counts = [c for g, reg in text_fns for c in g.calls() if c.bb in reg and c.name.endswith("Iterator>::count")]
+    ctx.ob(rule, inst + tag, nbad == 0 and bool(counts) and bool(text_reg),
+           "length of a text = number of characters (Chars::count); %d functions of the arm scanned" % len(text_fns), f.where(rsb))
+
+
 def run(ctx):
     ctx.explain("C09 (partial): agreement of the per-kind arms of ops::slice around the two shared helpers.  For every call of "
                 "the forward helper the use of its two results and of the step is traced (through closure captures) into the "
@@ -357,26 +389,15 @@ def run(ctx):
             ctx.ob(R2, inst, t2 == {"abs(step)"} and t3 == {"len"} and mapped,
                    "the backward helper gets |step| (unsigned_abs of the tested step) and the length of the collected operand, and "
                    "its indices are mapped to elements; here step=%s len=%s mapped=%s" % (sorted(t2), sorted(t3), mapped), where)
-        # ---- S3 -----------------------------------------------------------------------------------------------
-        BYTEWISE = ("core::str::<impl str>::len", "alloc::string::String::len", "core::str::<impl str>::as_bytes",
-                    "core::str::<impl str>::bytes", "core::str::<impl str>::get", "core::str::<impl str>::split_at",
-                    "core::str::<impl str>::char_indices", "core::str::<impl str>::is_char_boundary")
-        text_fns = [(f, text_reg)]
-        for g in sc.fns[1:]:
-            for bb, i, s in f.all_stmts():
-                rv = s.get("rv")
-                if rv and rv["k"] == "agg" and rv.get("closure") and bb in text_reg and g.path.endswith(rv["closure"].rsplit("::", 1)[-1]):
-                    text_fns.append((g, set(g.reachable)))
-        nbad = 0
-        for g, reg in text_fns:
-            for c in g.calls():
-                if c.bb in reg and (c.name in BYTEWISE or c.name.endswith("Index<I> for str>::index")):
-                    nbad += 1
-                    ctx.ob(R3, "%s|%s%s" % (short(g.path), short(c.name), tag), False,
-                           "the string arm measures or cuts the text in bytes (%s): Python slices characters" % c.name, g.where(c.bb))
-        counts = [c for g, reg in text_fns for c in g.calls() if c.bb in reg and c.name.endswith("Iterator>::count")]
-        ctx.ob(R3, "string-arm-counts-characters" + tag, nbad == 0 and bool(counts) and bool(text_reg),
-               "length of a text = number of characters (Chars::count); %d functions of the arm scanned" % len(text_fns), f.where(rsb))
+        # ---- S3 / S9 ------------------------------------------------------------------------------------------
+        check_text_arms(ctx, prog, f, sc, text_reg, rsb, R3, "string-arm-counts-characters", tag)
+        gi = prog.fns.get("minijinja::value::Value::get_item_opt")
+        if gi is not None:
+            gsw = arms.enum_switches(prog, gi, REPR)
+            if gsw:
+                gregs = arms.arm_regions(prog, gi, gsw[0][0], REPR)
+                gtext = gregs.get("String", set()) | gregs.get("SmallStr", set())
+                check_text_arms(ctx, prog, gi, Scope(prog, gi), gtext, gsw[0][0], R9, "subscript-of-a-text-counts-characters", tag)
         # ---- S4 -----------------------------------------------------------------------------------------------
         VAL = "minijinja::value::Value"
 
